@@ -113,6 +113,13 @@ def check_timing_tzinfo(
                 raise SchedulerError(TZ_ERROR_MSG)
 
 
+_DAYLIKE_PERIOD = {
+    JobType.MINUTELY: dt.timedelta(minutes=1),
+    JobType.HOURLY: dt.timedelta(hours=1),
+    JobType.DAILY: dt.timedelta(days=1),
+}
+
+
 def check_duplicate_effective_timings(
     job_type: JobType,
     timing: TimingJobUnion,
@@ -127,7 +134,7 @@ def check_duplicate_effective_timings(
         JobType.HOURLY,
         JobType.DAILY,
     ):
-        if not are_times_unique(cast(list[dt.time], timing)):
+        if not are_times_unique(cast(list[dt.time], timing), _DAYLIKE_PERIOD[job_type]):
             raise SchedulerError(DUPLICATE_EFFECTIVE_TIME)
 
 
